@@ -215,7 +215,10 @@ class CallMixin:
                 self.havoc(self.resolve_mod(m, q), p, '@call%d' % line)
             q.heap = dict(p.heap); q.has = dict(p.has); q.objs = p.objs; q.ghost = p.ghost
             res = self.make_result(c.get('returns'), fn.qualname + '@%d' % line)
-            if res is not None: self.bind_result(q.env, res)
+            if res is not None:
+                self.bind_result(q.env, res)
+                from .engine import wf
+                p.assume(wf(res))
             self.old_stack.append(pre)
             try:
                 for i, src in enumerate(c.get('ensures', [])):
@@ -438,4 +441,4 @@ class CallMixin:
 BUILTINS = {'len', 'str', 'int', 'float', 'max', 'min', 'abs', 'pow', 'isinstance', 'hasattr', 'list', 'range', 'print'}
 SPECFUNS = {'forall', 'exists', 'implies', 'ite', 'old', 'kind', 'value', 'Sum', 'Count', 'iff', 'forall2', 'tok',
             'select', 'has', 'attr', 'store_len', 'nu', 'Tot', 'alloc', 'real', 'SumR', 'opt_is_none', 'opt_val',
-            'lemma', 'ModelWF', 'unchanged', 'distinct_refs', 'Row', 'LL', 'PL'}
+            'elems', 'pelems', 'dupfree', 'appended', 'lemma', 'ModelWF', 'unchanged', 'distinct_refs', 'Row', 'LL', 'PL'}
